@@ -97,6 +97,11 @@ def wf(o, pe):
         tot += len(il)
     if o.N != tot:
         return 'sample count N=%s but chains sum to %d' % (o.N, tot)
+    # configuration lists and recorded lengths exist for the Monte-Carlo chains and for nothing else
+    if set(o.idl.keys()) != set(mc) or set(o.shape.keys()) != set(mc):
+        return 'configuration lists for %s, recorded lengths for %s, Monte-Carlo chains %s' % (sorted(o.idl), sorted(o.shape), mc)
+    if sum(o.shape.values()) != o.N:
+        return 'sample count N=%s but recorded chain lengths %s' % (o.N, dict(o.shape))
     for n in covn:
         if '|' in n:
             return "covariance name %s contains '|'" % n
